@@ -202,7 +202,6 @@ def _faith(case):
                     continue
                 losses = []
                 fit_calls = list(_Recorder.log)
-                ci = 0
                 for i, col in enumerate(cols):
                     lam = g.lambda_vecs_[col]
                     p = [float(v) for v in np.asarray(g.predictors_[i].predict(X)).ravel()]
@@ -248,16 +247,20 @@ def _faith(case):
                         ry = (w > 0).astype(int).tolist()
                         if len(set(ry)) > 1:  # otherwise the DummyClassifier shortcut is taken and the learner is not called
                             out["classes"].add("relabel_observed")
-                            if ci >= len(fit_calls):
-                                V.append(viol("C09:relabel:learner-not-called", "learner was not called for column %d (%s)" % (i, ctx), None, None, snip))
-                            else:
-                                gy, gw = fit_calls[ci]
-                                ci += 1
-                                aw = np.abs(w)
+                            aw = np.abs(w)
+                            # some call of the learner (order and number of calls are the implementation's business) must have received
+                            # exactly this relabelling with weights proportional to |w|
+                            ok_call = False
+                            for gy, gw in fit_calls:
+                                if gy != ry or len(gw) != len(aw):
+                                    continue
                                 scale = (np.dot(gw, aw) / np.dot(aw, aw)) if np.dot(aw, aw) > 0 else 1.0
-                                if gy != ry or not np.allclose(gw, scale * aw, rtol=1e-9, atol=1e-12) or scale <= 0:
-                                    V.append(viol("C09:relabel:wrong-reduction", "column %d: learner got y=%r w=%r, expected y=%r, w proportional to %r (%s)" % (
-                                        i, gy, gw, ry, aw.tolist(), ctx), [ry, aw.tolist()], [gy, gw], snip))
+                                if scale > 0 and np.allclose(gw, scale * aw, rtol=1e-9, atol=1e-12):
+                                    ok_call = True
+                                    break
+                            if not ok_call:
+                                V.append(viol("C09:relabel:wrong-reduction", "column %d: no call of the learner received y=%r with weights proportional to %r; calls seen: %r (%s)" % (
+                                    i, ry, aw.tolist(), fit_calls[:3], ctx), [ry, aw.tolist()], fit_calls[:3], snip))
                 if len(losses) == gs:
                     if losses[g.best_idx_] > min(losses) + 1e-12:
                         V.append(viol("C09:selection", "best_idx_=%d has loss %r, minimum is %r at %d (%s)" % (
